@@ -407,12 +407,17 @@ class MeanAndVariance(Mean):
     other_count_ratio = math_utils.safe_divide(other.count, self._count)
     delta_mean = math_utils.nanadd(self._mean, -prev_mean)
     mean_diff = math_utils.nanadd(other.mean, -self._mean)
-    self._var = (
-        prev_count_ratio * self._var
-        + other_count_ratio * other.var
+    # A dimension that has no value on one side has a NaN variance on that
+    # side, which contributes nothing instead of turning the result into NaN.
+    prev_var = math_utils.where(prev_count > 0, self._var, 0.0)
+    other_var = math_utils.where(np.asarray(other.count) > 0, other.var, 0.0)
+    var = (
+        prev_count_ratio * prev_var
+        + other_count_ratio * other_var
         + prev_count_ratio * delta_mean**2
         + other_count_ratio * mean_diff**2
     )
+    self._var = math_utils.where(np.asarray(self._count) > 0, var, np.nan)
 
   def result(self) -> types.NumbersT:
     return self
